@@ -204,15 +204,22 @@ def addNetwork (s : St) (n : Net) : St × Out :=
   onMarked (markMany s (netIds n)) fun s1 =>
     { s1 with idSet := s1.idSet.filter (fun k => k ∉ netIds s.net), net := n }
 
+/-- the roles whose `add_objects` branch registers the obstacle on its lanelets (`_add_static_obstacle_to_lanelets`,
+    `_add_dynamic_obstacle_to_lanelets`); the branches of EnvironmentObstacle / PhantomObstacle do not (scenario.py:754-759) -/
+def Role.onLanelets : Role → Bool
+  | .stat | .dyn => true
+  | .env | .phan => false
+
 /-- `add_objects` of a static / dynamic obstacle that carries a lanelet assignment: the id is marked and the obstacle
     stored, THEN it is registered on its lanelets — `find_lanelet_by_id(l).…_obstacles_on_lanelet` raises
     AttributeError for a lanelet that does not exist (skipped altogether while the network has no lanelets): the call
-    fails half-way, the obstacle stays in (scenario.py:722-730, 768-777, 825-838). -/
+    fails half-way, the obstacle stays in (scenario.py:722-730, 768-777, 825-838).  For the two other roles the
+    assignment is not looked at (added with the translator tie T09: the model now follows the code for all four roles). -/
 def addObstacleOn (s : St) (r : Role) (k : Nat) (on : List Nat) : St × Out :=
   match mark s k with
   | (s1, none) =>
     (putObstacle s1 r k,
-      if s1.net.lanelets.isEmpty ∨ ∀ x ∈ on, x ∈ s1.net.lanelets.map (·.id) then .ok else .err .attr)
+      if r.onLanelets = false ∨ s1.net.lanelets.isEmpty ∨ ∀ x ∈ on, x ∈ s1.net.lanelets.map (·.id) then .ok else .err .attr)
   | (s1, some e) => (s1, .err e)
 
 /-- `add_objects` for one object (scenario.py:718-765). -/
